@@ -24,11 +24,12 @@ struct SObs {
     started: bool,
     ended: bool,
     active: bool,
+    can: Vec<(u64, Option<bool>)>,
 }
 impl SObs {
     fn coq(&self) -> String {
         format!(
-            "(mkSobs {} {} {} {} {} {} {} {})",
+            "(mkSobs {} {} {} {} {} {} {} {} {})",
             self.start,
             self.end,
             self.pal,
@@ -36,7 +37,8 @@ impl SObs {
             coq_bool(self.cfg_active),
             coq_bool(self.started),
             coq_bool(self.ended),
-            coq_bool(self.active)
+            coq_bool(self.active),
+            coq_list(&self.can.iter().map(|(a, r)| format!("({}, {})", a, match r { Some(b) => format!("(Ok {})", coq_bool(*b)), None => "Err".to_string() })).collect::<Vec<_>>())
         )
     }
 }
@@ -55,6 +57,7 @@ fn observe(w: &World) -> SObs {
         started: st["has_started"].as_bool().unwrap_or(false),
         ended: en["has_ended"].as_bool().unwrap_or(false),
         active: ac["is_active"].as_bool().unwrap_or(false),
+        can: [60u64, 61, 62, 50].iter().map(|a| (*a, w.can_execute(*a))).collect(),
     }
 }
 
@@ -71,6 +74,18 @@ fn flags_monitor(now: u64, o: &SObs) -> Option<(&'static str, String)> {
     }
     if o.cfg_active != o.active {
         return Some(("config-active-differs", format!("Config.is_active = {} but IsActive = {} at now={}", o.cfg_active, o.active, now)));
+    }
+    None
+}
+/// CanExecute answers true exactly for the senders the AdminList query names
+fn admin_monitor(w: &World, o: &SObs) -> Option<(&'static str, String)> {
+    let (admins, _) = w.admin_list();
+    for (a, r) in &o.can {
+        if let Some(b) = r {
+            if *b != admins.contains(a) {
+                return Some(("can-execute-wrong", format!("CanExecute({}) = {} but AdminList = {:?}", name(*a), b, admins)));
+            }
+        }
     }
     None
 }
@@ -123,7 +138,7 @@ fn run_history(h: &History) -> Outcome {
     if !(h.init.now < o0.start) {
         flag("created-already-started", format!("instantiate at now={} accepted start={}", h.init.now, o0.start), &mut viol);
     }
-    if let Some((k, what)) = shape_monitor(&o0).or_else(|| flags_monitor(h.init.now, &o0)) {
+    if let Some((k, what)) = shape_monitor(&o0).or_else(|| flags_monitor(h.init.now, &o0)).or_else(|| admin_monitor(&w, &o0)) {
         flag(k, format!("after instantiate: {}", what), &mut viol);
     }
     let mut prev = o0.clone();
@@ -163,7 +178,7 @@ fn run_history(h: &History) -> Outcome {
                 if !ok && w.digest() != digest_before {
                     flag("rejected-call-changed-state", format!("{:?} at now={} was rejected but storage changed", op, s.now), &mut viol);
                 }
-                if let Some((k, what)) = shape_monitor(&o).or_else(|| flags_monitor(s.now, &o)) {
+                if let Some((k, what)) = shape_monitor(&o).or_else(|| flags_monitor(s.now, &o)).or_else(|| admin_monitor(&w, &o)) {
                     flag(k, format!("after {:?} at now={}: {}", op, s.now, what), &mut viol);
                 }
                 if started_before {
